@@ -260,6 +260,7 @@ func main() {
 		}
 	}
 	run.Set("early_response_trials_(delivery_completed_before_the_caller_waited)", early)
+	registryBurst(run)
 	stress(run, nats)
 	registryHistories(run)
 	raceStage(run)
